@@ -747,7 +747,13 @@ func TestC01(t *testing.T) {
 	// (b) pairs of interesting letters (measured on the default configuration)
 	var interesting []string
 	for _, n := range hostileNames {
-		r := runC01(t, explore.Case{Prop: "C01", Unit: "cfg=peerstore;start=empty", H: []string{"D:" + n}})
+		mc := explore.Case{Prop: "C01", Unit: "cfg=peerstore;start=empty", H: []string{"D:" + n}}
+		w.Journal(mc)
+		r := runC01(t, mc)
+		w.EndCase()
+		if r.Viol != "" && w.ShardI == 0 {
+			w.Violate(mc, r.Viol)
+		}
 		if r.Outcome != "0/0" {
 			interesting = append(interesting, n)
 		}
